@@ -118,6 +118,19 @@ CHECKS = {
    text="Vanished pods are collected within two passes, existing pods and pods with a request in flight never, one uncleanable record does not block the others, repeated passes are idempotent.",
    design_ref="DESIGN.md 4.2, 5 (C09), 11.6",
    note="CRD-mode cleanRuntimeNode is covered by the Ipam family (C03), not here; netlink errors other than a missing device are not injected; needs root for unshare -n."),
+
+ "C03": dict(
+   technique="same machinery as C02 (Ipam.tla, real ReconcileNode + real daemon side CRDV2 / NodeRuntime sync) with Enforce={C03}: every unbind / mark-deleting / unassign in the recorded Node CR and cloud calls is judged against the pod list and the NodeRuntime teardown reports at that moment; every 'deleted' report against processed DELs / verified-absent lookups",
+   category="model_checking",
+   text="No reclaim of an address while its pod exists or before its teardown was reported; reclaim does happen once gone and reported; the agent reports teardown only for processed DELs or verified-absent pods.",
+   design_ref="DESIGN.md 4.3, 5 (C03), 11.6",
+   note="Known finding D8 (stale 'deleted' stamp survives a later ADD) is reported as KNOWN-FINDING; validated on an environment without drift and without partially bound initial records."),
+ "C08": dict(
+   technique="same machinery as C02 with Enforce={C08}: quota guards on every create/assign cloud call, roll-back-or-recorded after mid-way failures, and at the end of every scenario a drain, a fixed-point observation, a forced full sync and an agreement observation judged by Ipam.tla",
+   category="model_checking",
+   text="Per-interface and per-node quotas on every cloud request; convergence to a fixed point (all eligible pods bound, idle within [min,max], no further cloud mutation) under a healthy cloud; after failures whatever was created is deleted or recorded for deletion; record equals cloud after a full sync.",
+   design_ref="DESIGN.md 4.3, 5 (C08), 11.6",
+   note="Known findings D19, D20, D24, D25, D26 (three oscillations, two leaks) are matched by trace-computed signatures and reported as KNOWN-FINDING; EFLO path not covered."),
 }
 
 NA_REASON = "not built yet in this round of work; see DESIGN.md section 10 (build order) - the property is planned to be decided by the TLA+ pipeline"
